@@ -210,12 +210,12 @@ def replay_by_sweep(pid, v, work, log, module="patch", testname="replay_sweep_mu
         os.makedirs(d, exist_ok=True)
         path = os.path.join(d, "sweep_%s.txt" % testname)
         with open(path, "w") as f:
-            f.write("native test %s (harness/patch_h.rs) on /repo's current tree, real Vec:\n%s\n" % (testname, msg[:4000]))
+            f.write("native test %s (harness/*.rs) on /repo's current tree, real Vec:\n%s\n" % (testname, msg[:4000]))
         log("  reproduced natively by the sweep: %s" % msg[:300])
         res.update(reproduced=True, path=path, what=msg[:400], tags=["sweep"])
     elif failed is None:
         res["why"] = "native sweep did not run: %s" % txt[-300:]
     else:
         cands = "; ".join(c.get("what", "") for c in v.get("candidates", [])[:2])
-        res["why"] = "the native sweep (400k random multi-hunk cases against the reference) found no violating input; candidate: %s" % cands[:300]
+        res["why"] = "the native sweep %s (random cases against the reference, real containers) found no violating input; candidate: %s" % (testname, cands[:300])
     return res
